@@ -99,8 +99,14 @@ func (ex *Exec) eqBytes(a, b *SliceVal) *Term {
 	r = append(r, tt.Ule(a.Len, ex.c64(uint64(n))))
 	for i := 0; i < n; i++ {
 		ci := ex.c64(uint64(i))
-		va := ex.cellRead(a.Obj, ex.elemOff(a, ci))
-		vb := ex.cellRead(b.Obj, ex.elemOff(b, ci))
+		oa, ob := ex.elemOff(a, ci), ex.elemOff(b, ci)
+		if (oa.IsConst() && oa.Val >= uint64(len(a.Obj.Cells))) || (ob.IsConst() && ob.Val >= uint64(len(b.Obj.Cells))) {
+			// position i does not exist in one operand: equality needs len <= i
+			r = append(r, tt.Ule(a.Len, ci))
+			break
+		}
+		va := ex.cellRead(a.Obj, oa)
+		vb := ex.cellRead(b.Obj, ob)
 		r = append(r, tt.Implies(tt.Ult(ci, a.Len), ex.valueEq(va, vb)))
 	}
 	return tt.And(r...)
